@@ -35,7 +35,7 @@ pub fn in_support(power: f64, y: &[f64]) -> bool {
 
 
 /// CPU-time limit of an isolated fit
-pub const ISO_TIMEOUT_MS: u64 = 3000;
+pub const ISO_TIMEOUT_MS: u64 = 1500;
 /// largest CPU time (ms, last reading before exit) of an isolated fit that DID return (evidence for the margin)
 pub static MAX_CHILD_MS: std::sync::atomic::AtomicU64 = std::sync::atomic::AtomicU64::new(0);
 
